@@ -16,6 +16,7 @@ import (
 	dbm "github.com/tendermint/tm-db"
 
 	v0 "github.com/tendermint/tendermint/blockchain/v0"
+	v2 "github.com/tendermint/tendermint/blockchain/v2"
 	cfg "github.com/tendermint/tendermint/config"
 	"github.com/tendermint/tendermint/consensus"
 	"github.com/tendermint/tendermint/crypto/ed25519"
@@ -192,6 +193,8 @@ func (n *node) storedHeight() int64 {
 	}
 	return n.ch.ih - 1
 }
+
+func pidS(s string) p2p.ID { return p2p.ID(s) }
 
 func pid(i int) p2p.ID { return p2p.ID(strconv.Itoa(i)) }
 
@@ -566,7 +569,12 @@ func execOnce(c core.Case) []string {
 	out := make([]string, 0, len(c.Ops))
 	var n *node
 	var n2 *v2node
+	var n1 *v1node
+	var nsc *scnode
 	defer func() {
+		if n1 != nil {
+			n1.close()
+		}
 		if n != nil {
 			n.close()
 		}
@@ -578,6 +586,50 @@ func execOnce(c core.Case) []string {
 		f := strings.Fields(op)
 		if len(f) == 0 {
 			out = append(out, "bad-op")
+			continue
+		}
+		if strings.HasPrefix(f[0], "sc") {
+			if f[0] == "scinit" {
+				h, err := strconv.ParseInt(kv(op)["h"], 10, 64)
+				if err != nil {
+					out = append(out, "bad-op")
+					continue
+				}
+				nsc = &scnode{sc: v2.NewVerifScheduler(h)}
+				out = append(out, "ok")
+				continue
+			}
+			if nsc == nil {
+				out = append(out, "bad-op")
+				continue
+			}
+			out = append(out, nsc.op(op))
+			continue
+		}
+		if strings.HasPrefix(f[0], "v1") {
+			if f[0] == "v1init" {
+				m := kv(op)
+				ch, err := getChain(m["vals"], m["ih"], m["upd"])
+				if err != nil {
+					out = append(out, "bad-op")
+					continue
+				}
+				if n1 != nil {
+					n1.close()
+				}
+				if n1, err = newV1(ch); err != nil {
+					out = append(out, "init-error")
+					n1 = nil
+					continue
+				}
+				out = append(out, fmt.Sprintf("ok h=%d", n1.r.View().Height))
+				continue
+			}
+			if n1 == nil {
+				out = append(out, "bad-op")
+				continue
+			}
+			out = append(out, n1.op(op))
 			continue
 		}
 		if strings.HasPrefix(f[0], "v2") {
